@@ -491,6 +491,11 @@ def writer(plan, scratch, log, second=False):
                     out["rejected"].append((t, type(e).__name__))
                     out["cells"].append(cell + ("rejected",))
                     log.add("put", t, st["kind"], st["pattern"], "rejected", type(e).__name__)
+                    if db.hasTimeStep(0, 0, f"t{t}"):
+                        # refused entirely: no half-written snapshot stays behind (it would be listed
+                        # and could neither be loaded nor written again)
+                        out["violation"] = ("C05.refusal", f"transaction {t} ({st['kind']}/{st['pattern']}/{st['level']}): the write was refused ({type(e).__name__}) but the snapshot t{t} is in the file", {"kind": st["kind"], "what": "half-written"})
+                        return out
                     continue
                 out["expect"][t] = (st, [(int(oo.p.serialNum), v) for oo, v in zip(objs, coll)])
                 out["accepted"].append(t)
